@@ -1,8 +1,10 @@
 // Driver for C01 / C07 / C19 at index level.
 //
 // Scenario (one JSON object per line):
-//   {"mode":"tree"|"state", "ops":[{"op":"sub","s":"s1","f":["a","#"],"q":1},{"op":"unsub",...},{"op":"end","s":"s1"}],
-//    "topics":[["a"],["a","b"]], "probe":"each"|"end"}
+//
+//	{"mode":"tree"|"state", "ops":[{"op":"sub","s":"s1","f":["a","#"],"q":1},{"op":"unsub",...},{"op":"end","s":"s1"}],
+//	 "topics":[["a"],["a","b"]], "probe":"each"|"end"}
+//
 // tree : subscriptions.Tree (Upsert / Walk), no mount point
 // state: distributed SubscriptionsState (Create / Delete / DeleteSession / ByPattern) under mount point "mp"
 // After every op (probe=each) or after the last one (probe=end) the index is queried for every
@@ -18,22 +20,31 @@ import (
 	"sort"
 	"strings"
 
+	"github.com/vx-labs/mqtt-protocol/packet"
 	"github.com/vx-labs/wasp/v4/subscriptions"
+	"github.com/vx-labs/wasp/v4/topics"
 	"verifharness/internal/dstate"
 	"verifharness/internal/rec"
 )
 
 type op struct {
+	T  []string `json:"t"`
+	P  string   `json:"p"`
+	K  int      `json:"k"`
+	V  string   `json:"v"`
 	Op string   `json:"op"`
 	S  string   `json:"s"`
 	F  []string `json:"f"`
 	Q  int32    `json:"q"`
 }
 type scenario struct {
-	Mode   string     `json:"mode"`
-	Ops    []op       `json:"ops"`
-	Topics [][]string `json:"topics"`
-	Probe  string     `json:"probe"`
+	Filters [][]string `json:"filters"`
+	Mode    string     `json:"mode"`
+	Kind    string     `json:"kind"`
+	Keys    [][]string `json:"keys"`
+	Ops     []op       `json:"ops"`
+	Topics  [][]string `json:"topics"`
+	Probe   string     `json:"probe"`
 }
 type got struct {
 	S string   `json:"s"`
@@ -121,9 +132,11 @@ func (x *stateIdx) pat(f []string) []byte {
 	x.known[p] = f
 	return []byte(p)
 }
-func (x *stateIdx) sub(s string, f []string, q int32) { x.n.State.Subscriptions().Create(s, x.pat(f), q) }
-func (x *stateIdx) unsub(s string, f []string)         { x.n.State.Subscriptions().Delete(s, x.pat(f)) }
-func (x *stateIdx) end(s string)                       { x.n.State.Subscriptions().DeleteSession(s) }
+func (x *stateIdx) sub(s string, f []string, q int32) {
+	x.n.State.Subscriptions().Create(s, x.pat(f), q)
+}
+func (x *stateIdx) unsub(s string, f []string) { x.n.State.Subscriptions().Delete(s, x.pat(f)) }
+func (x *stateIdx) end(s string)               { x.n.State.Subscriptions().DeleteSession(s) }
 func (x *stateIdx) query(t []string) []got {
 	res := []got{}
 	for _, sub := range x.n.State.Subscriptions().ByPattern([]byte("mp/" + join(t))) {
@@ -169,7 +182,211 @@ func probe(r *rec.Recorder, x index, topics [][]string) bool {
 	return true
 }
 
+// ---- C19: both tries as maps over full topic strings
+type kv interface {
+	write(key, v string)
+	remove(key string)
+	get(key string) []string // values found at exactly this key
+	count() int              // -1 if the store has no Count
+	iterate() []string
+	dump() []byte
+	load([]byte)
+}
+type topicsKV struct{ t topics.Store }
+
+func (x *topicsKV) write(key, v string) { x.t.Insert([]byte(key), []byte(v)) }
+func (x *topicsKV) remove(key string)   { x.t.Remove([]byte(key)) }
+func (x *topicsKV) get(key string) []string {
+	var out [][]byte
+	x.t.Match([]byte(key), &out)
+	res := []string{}
+	for _, b := range out {
+		res = append(res, string(b))
+	}
+	return res
+}
+func (x *topicsKV) count() int { return x.t.Count() }
+func (x *topicsKV) iterate() []string {
+	res := []string{}
+	x.t.Iterate(func(b []byte) { res = append(res, string(b)) })
+	return res
+}
+func (x *topicsKV) dump() []byte  { b, _ := x.t.Dump(); return b }
+func (x *topicsKV) load(b []byte) { x.t.Load(b) }
+
+type subsKV struct{ t subscriptions.Tree }
+
+func (x *subsKV) write(key, v string) {
+	x.t.Upsert([]byte(key), func([]byte) []byte { return []byte(v) })
+}
+func (x *subsKV) remove(key string) { x.t.Upsert([]byte(key), func([]byte) []byte { return nil }) }
+func (x *subsKV) get(key string) []string {
+	res := []string{}
+	x.t.Walk([]byte(key), func(b []byte) {
+		if len(b) > 0 {
+			res = append(res, string(b))
+		}
+	})
+	return res
+}
+func (x *subsKV) count() int { return -1 }
+func (x *subsKV) iterate() []string {
+	res := []string{}
+	x.t.Iterate(func(b []byte) { res = append(res, string(b)) })
+	return res
+}
+func (x *subsKV) dump() []byte  { b, _ := x.t.Dump(); return b }
+func (x *subsKV) load(b []byte) { x.t.Load(b) }
+
+func runStore(r *rec.Recorder, n int, s scenario) {
+	var x kv
+	if s.Kind == "topics" {
+		x = &topicsKV{t: topics.NewTree()}
+	} else {
+		x = &subsKV{t: subscriptions.NewTree()}
+	}
+	keys := make([]string, len(s.Keys))
+	for i, k := range s.Keys {
+		keys[i] = join(k)
+	}
+	r.Emit(rec.Ev{"op": "new", "scn": n, "mode": "store", "kind": s.Kind, "nkeys": len(keys), "keys": s.Keys})
+	var snap []byte
+	guard := func(f func()) (panicked bool) {
+		defer func() {
+			if recover() != nil {
+				panicked = true
+			}
+		}()
+		f()
+		return false
+	}
+	for _, o := range s.Ops {
+		var pn bool
+		switch o.Op {
+		case "w":
+			pn = guard(func() { x.write(keys[o.K-1], o.V) })
+		case "rm":
+			pn = guard(func() { x.remove(keys[o.K-1]) })
+		case "dump":
+			pn = guard(func() { snap = x.dump() })
+		case "load":
+			pn = guard(func() { x.load(snap) })
+		}
+		r.Emit(rec.Ev{"op": o.Op, "k": o.K, "v": o.V, "panic": pn})
+		if pn {
+			return
+		}
+		vals := make([]string, len(keys))
+		var cnt int
+		var it []string
+		pn = guard(func() {
+			for i, k := range keys {
+				g := x.get(k)
+				switch len(g) {
+				case 0:
+					vals[i] = ""
+				case 1:
+					vals[i] = g[0]
+				default:
+					vals[i] = "?multiple:" + strings.Join(g, ",")
+				}
+			}
+			cnt = x.count()
+			it = x.iterate()
+			sort.Strings(it)
+		})
+		if it == nil {
+			it = []string{}
+		}
+		r.Emit(rec.Ev{"op": "probe", "vals": vals, "count": cnt, "iter": it, "panic": pn})
+		if pn {
+			return
+		}
+	}
+}
+
+// ---- C07: retained messages at TopicsState level, on the origin and on a replica
+type rgot struct {
+	T []string `json:"t"`
+	P string   `json:"p"`
+	R bool     `json:"r"`
+}
+
+func runRetained(r *rec.Recorder, n int, s scenario) {
+	a, b := dstate.New(1), dstate.New(2)
+	known := map[string][]string{}
+	r.Emit(rec.Ev{"op": "new", "scn": n, "mode": "retained"})
+	guard := func(f func()) (panicked bool) {
+		defer func() {
+			if recover() != nil {
+				panicked = true
+			}
+		}()
+		f()
+		return false
+	}
+	probe := func(node *dstate.Node, name string) bool {
+		for _, f := range s.Filters {
+			var g []rgot
+			pn := guard(func() {
+				msgs, err := node.State.Topics().Get([]byte("mp/" + join(f)))
+				if err != nil {
+					panic(err)
+				}
+				for _, m := range msgs {
+					t, ok := known[string(m.Publish.Topic)]
+					if !ok {
+						t = []string{"?unknown topic", string(m.Publish.Topic)}
+					}
+					g = append(g, rgot{T: t, P: string(m.Publish.Payload), R: m.Publish.Header != nil && m.Publish.Header.Retain})
+				}
+			})
+			if g == nil {
+				g = []rgot{}
+			}
+			sort.Slice(g, func(i, j int) bool { return join(g[i].T) < join(g[j].T) })
+			r.Emit(rec.Ev{"op": "get", "node": name, "f": f, "got": g, "panic": pn})
+			if pn {
+				return false
+			}
+		}
+		return true
+	}
+	for i, o := range s.Ops {
+		topic := "mp/" + join(o.T)
+		known[topic] = o.T
+		pn := guard(func() {
+			// what the publish worker does with a retained PUBLISH (wasp/packets.go)
+			if o.P == "" {
+				a.State.Topics().Delete([]byte(topic))
+			} else {
+				a.State.Topics().Set(&packet.Publish{Header: &packet.Header{Retain: true}, Topic: []byte(topic), Payload: []byte(o.P)})
+			}
+			for _, m := range a.Drain() {
+				b.State.Distributor().NotifyMsg(m)
+			}
+		})
+		r.Emit(rec.Ev{"op": "pub", "t": o.T, "p": o.P, "panic": pn})
+		if pn {
+			return
+		}
+		if s.Probe == "each" || i == len(s.Ops)-1 {
+			if !probe(a, "origin") || !probe(b, "replica") {
+				return
+			}
+		}
+	}
+}
+
 func run(r *rec.Recorder, n int, s scenario) {
+	if s.Mode == "retained" {
+		runRetained(r, n, s)
+		return
+	}
+	if s.Mode == "store" {
+		runStore(r, n, s)
+		return
+	}
 	var x index
 	if s.Mode == "tree" {
 		x = &treeIdx{t: subscriptions.NewTree()}
